@@ -47,7 +47,8 @@ CONSTANTS
     PropScripts,    \* redeemer output scripts that may have a pending request
     PropReqVals,    \* requested amounts of pending redemption requests
     PropFees,       \* proposed fees of the proposal scenarios
-    PropShapes      \* change shapes of the redemption proposal scenarios
+    PropShapes,     \* change shapes of the redemption proposal scenarios
+    MaxFeeModes     \* subset of AllMaxFeeModes: how the requests' TxMaxFee relate to their fee shares
 
 \* kinds of the output a UTXO reference points at
 MainGood   == {"p2pkh", "p2wpkh"}          \* AddPublicKeyHashInput accepts
@@ -112,7 +113,8 @@ PendOptions == {[p |-> FALSE, amount |-> 0, treasury |-> 0]} \cup [p : {TRUE}, a
 ScriptLists == UNION { InjectiveSeqs(PropScripts, n) : n \in 1..PropMaxKeys }
 RedemptionProposals ==
     [kind : {"redemptionProposal"}, main : [kind : {"p2wpkh"}, value : PropMainVals], scripts : ScriptLists,
-     pend : [PropScripts -> PendOptions], foreign : BOOLEAN, fee : PropFees, shape : PropShapes]
+     pend : [PropScripts -> PendOptions], foreign : BOOLEAN, fee : PropFees, shape : PropShapes,
+     maxFee : MaxFeeModes]
 
 ProposalInputs == SweepProposals \cup RedemptionProposals
 
@@ -164,6 +166,33 @@ FeeShares(fee, k) ==
     LET rem == GoRem(fee, k)
         per == GoDiv(fee, k)
     IN [n \in 1..k |-> IF n = k THEN per + rem ELSE per]
+
+\* TxMaxFee.  Every redemption request carries the maximum transaction fee share it may incur
+\* (RedemptionRequest.TxMaxFee, fixed when the request was created).  The assembler does not
+\* look at it: "the fee shares applied to specific requests according to the provided
+\* feeDistribution function are not validated in any way" (assembleRedemptionTransaction), the
+\* per-request and total limits are enforced by the on-chain validation of the proposal
+\* (ValidateRedemptionProposal -> WalletProposalValidator; see also ProposeRedemption in
+\* pkg/tbtcpg).  So the PROPOSED shares are applied exactly, whatever TxMaxFee is: a share is
+\* never silently clamped, otherwise the transaction would not pay the proposed fee.
+\* Modes (k requests, shares = FeeShares(fee, k)):
+\*   "high"        every TxMaxFee far above every share
+\*   "evenPart"    every TxMaxFee = fee div k: equal to the share of all requests but the last,
+\*                 below the last one's whenever fee is not divisible by k
+\*   "belowFirst"  TxMaxFee of request 1 = its share - 1 (at least 0), of request n > 1 =
+\*                 its share + n (limits differing between requests)
+AllMaxFeeModes == {"high", "evenPart", "belowFirst"}
+ModeOrder == <<"high", "evenPart", "belowFirst">>
+\* plain assembler scenarios rotate through the modes (no additional scenarios); redemption
+\* proposals carry the mode as a scenario field
+MaxFeeMode(i) ==
+    IF i.kind = "redemptionProposal" THEN i.maxFee
+    ELSE ModeOrder[((i.fee + i.main.value + Len(i.items)) % 3) + 1]
+TxMaxFees(mode, fee, k) ==
+    LET sh == FeeShares(fee, k) IN
+    [n \in 1..k |-> CASE mode = "high" -> 1000000000
+                      [] mode = "evenPart" -> GoDiv(fee, k)
+                      [] mode = "belowFirst" -> IF n = 1 THEN (IF sh[1] > 0 THEN sh[1] - 1 ELSE 0) ELSE sh[n] + n]
 
 \* assembleRedemptionTransaction: the main UTXO is the only input; one output per request
 \* (redeemer script, amount - treasury fee - fee share) in request order; a change output
@@ -433,6 +462,17 @@ RedemptionPaysNamedRequests ==
               /\ res.outputs[n + off].script = in.scripts[n]
               /\ res.outputs[n + off].value =
                      in.pend[in.scripts[n]].amount - in.pend[in.scripts[n]].treasury - res.shares[n]
+\* TxMaxFee plays no role in assembly: the applied shares are the proposed ones (even split,
+\* remainder on the last) also for requests whose TxMaxFee is below their share
+TxMaxFeeNotApplied ==
+    (Built /\ ai.kind = "redemption") =>
+        LET k == Len(ai.items)
+            limits == TxMaxFees(IF in.kind = "redemptionProposal" THEN in.maxFee ELSE MaxFeeMode(in), ai.fee, k)
+            off == IF Len(res.outputs) = k + 1 /\ ai.shape # "last" THEN 1 ELSE 0
+        IN /\ res.shares = FeeShares(ai.fee, k)
+           /\ \A n \in 1..k :
+                 res.outputs[n + off].value = ai.items[n].value - ai.items[n].aux - FeeShares(ai.fee, k)[n]
+
 RedemptionProposalErrors ==
     (done /\ in.kind = "redemptionProposal") =>
         (res.err = "" <=> \A n \in 1..Len(in.scripts) : in.pend[in.scripts[n]].p)
